@@ -91,8 +91,11 @@ def senv_coq(dss):
 
 def run(ctx):
     ctx.prove("C10")
+    ctx.prove("C10Types")     # type soundness of the component-expression language (typing judgement built on the regenerated tables)
     engine.install(need_parser=True)
     q = ctx.tier == "quick"
+    import typetie
+    typing_hist = typetie.run(ctx, q)
     # --- generated scripts: predicate on engine output + names_of vs semantic_analysis
     cases = []
     while len(cases) < (120 if q else 6000):
@@ -159,13 +162,18 @@ def run(ctx):
             n_viol += 1
             ctx.violation(f"zoo:{name}:" + re.sub(r"[^A-Za-z_. ]", "", p)[:50], f"{script.strip()[-200:]} :: {p}",
                           {"template": name, "script": script, "structures": st, "inputs": {k: v.to_dict(orient="list") for k, v in dps.items()}, "problem": p})
-    ctx.cov["distribution"] = {"generated": len(cases), "corpus_ok": done, "corpus_engine_errors": errs, "zoo_template_runs_ok": zoo_hist}
+    ctx.cov["distribution"] = {"generated": len(cases), "corpus_ok": done, "corpus_engine_errors": errs, "zoo_template_runs_ok": zoo_hist, "typing_tie": typing_hist}
     ctx.cov["rule"] = ("generated scripts (exprk generator) and corpus scripts with their data (return_only_persistent=False): every returned dataset vs "
                        "semantic_analysis() (names, roles, types, nullability, order; data columns in component order), every value inhabits its type, "
                        "identifiers non-null and unique, non-nullable components non-null, no-identifier datasets ≤ 1 datapoint; names_of vs "
                        "semantic_analysis() on every generated script; the same predicate over every operator-zoo template (joins, exists_in, aggregations, "
                        "analytic, validation, time operators, conditionals, casts) on random data; distinct = script+data")
     ctx.oblige("predicate evaluated on engine output for every case", True)
+    ctx.oblige("typing tie: ctype_code evaluated in Coq = semantic_analysis() on the depth-1 expression language (exhaustive over accepted "
+               "expressions; rejected ones sampled in the quick tier), values inhabit the predicted types", True)
+    ctx.assumptions.append("typing judgement: conditions of if are components (a literal condition is evaluated at scalar level by another code "
+                           "path); mod/power are typed but outside the value model; Boolean-to-String promotion is typed, its run-time failures "
+                           "are recorded findings")
 
 
 def replay(ctx, obj):
